@@ -250,6 +250,7 @@ type wrappedKey string
 func c10Run(t *rapid.T) {
 	mp := drawMapOrder(t)
 	drawSwarm(t)
+	obsMode := uni(t, "obsmode", 3)
 	maxCtx := 10
 	nops := rapid.IntRange(1, 60).Draw(t, "nops")
 	var live []*mctx
@@ -379,6 +380,21 @@ func c10Run(t *rapid.T) {
 				}
 			}
 		}
+		// observation is itself an operation (a read can trigger lazy work or
+		// fill caches): some histories look at everything after every step,
+		// some only now and then, some only at the very end
+		switch obsMode {
+		case 0:
+			checkAll()
+		case 1:
+			if uni(t, "observe", 4) == 0 {
+				hist = append(hist, "(observe all)")
+				checkAll()
+			}
+		}
+	}
+	if obsMode != 0 {
+		hist = append(hist, "(observe all)")
 		checkAll()
 	}
 	count("c10_ops", int64(len(hist)))
